@@ -907,7 +907,36 @@ class Interp:
         return env, term
 
     def st_Try(self, st, env):
-        raise Unsupported("try statement at %s:%d" % (self.frame.func.module.relpath, st.lineno))
+        """try / except / else / finally, over-approximated: a handler may start after any prefix of the
+        body, so it runs on the join of the state before and after the body; what follows sees the join of
+        the normal exit (body, then else) and of every handler that falls through."""
+        e0 = env.copy()
+        eb, termb = self.exec_block(st.body, env.copy())
+        outs = []
+        if not termb:
+            if st.orelse:
+                eb, termb = self.exec_block(st.orelse, eb)
+            if not termb:
+                outs.append(eb)
+        for h in st.handlers:
+            eh = join_env(self.dom, e0.copy(), eb.copy()) if eb is not None else e0.copy()
+            if h.name:
+                eh.set(h.name, TOP())
+            eh, termh = self.exec_block(h.body, eh)
+            if not termh:
+                outs.append(eh)
+        if not outs:
+            if st.finalbody:
+                self.exec_block(st.finalbody, e0.copy())
+            return env, True
+        cur = outs[0]
+        for o in outs[1:]:
+            cur = join_env(self.dom, cur, o)
+        if st.finalbody:
+            cur, termf = self.exec_block(st.finalbody, cur)
+            if termf:
+                return cur, True
+        return cur, False
 
     def st_Break(self, st, env):
         raise Unsupported("break")
@@ -1943,8 +1972,8 @@ class Interp:
             if dotted.startswith("torch.distributions."):
                 return AV("extobj", dotted)
             if dotted.startswith("torch.nn.") and name[:1].isupper():
-                if name == "Parameter" and args:
-                    return args[0]
+                if name in ("Parameter", "Buffer") and args:
+                    return args[0]  # the tensor itself: what it is registered as is the model's attribute table
                 return AV("extmod", (dotted, None, ("<new>",)))
             info = tops.OPS.get(name)
             if info is None:
@@ -2003,6 +2032,8 @@ class Interp:
             recv_t = self._join_all(recv.data) if recv.data else T()
         else:
             recv_t = recv
+        # the sequence a cat / stack joins, element by element (order-sensitive domains read it)
+        self.last_seq = recv if name in ("cat", "stack") and recv.kind in ("list", "tuple") else None
         r = dom.op(self, name, info, recv_t, args, kwargs, node)
         if r is not None:
             return r
